@@ -41,3 +41,12 @@ func RegoStringList(values []string) string {
 	}
 	return strings.Join(quoted, ",")
 }
+
+// RegoStringSet renders the elements as a Rego set literal. The empty set has to be written set():
+// { } is the empty object.
+func RegoStringSet(values []string) string {
+	if len(values) == 0 {
+		return "set()"
+	}
+	return "{ " + RegoStringList(values) + "}"
+}
